@@ -174,6 +174,7 @@ func (d *Doc) Norm() {
 type Pool struct {
 	Text, Note, Css, Cls, Ann, Voice, RegionID, Width, Scroll, Anchor, Viewport map[int]string
 	Align, Line, Position, Size, Vertical                                       map[int]string
+	ColUpper                                                                    bool // the run colours are spelled with upper-case hexadecimal digits
 }
 
 var base = Pool{
@@ -212,6 +213,7 @@ func PoolFor(n int) Pool {
 	k := ((n % len(texts)) + len(texts)) % len(texts)
 	p.Text = texts[k]
 	p.Voice = voices[k]
+	p.ColUpper = (n/len(texts))%2 != 0
 	return p
 }
 
@@ -603,6 +605,9 @@ func Build(g Truth, p Pool) *astisub.Subtitles {
 					sa := &astisub.StyleAttributes{}
 					if r.Col != 0 {
 						c := colourOf[r.Col]
+						if p.ColUpper {
+							c = strings.ToUpper(c) // #FFFF00 is the same colour as #ffff00
+						}
 						sa.TTMLColor = &c
 					}
 					for _, t := range r.Tags {
@@ -691,7 +696,7 @@ func Project(s *astisub.Subtitles, p Pool) Truth {
 					if li.InlineStyle.TTMLColor != nil {
 						r.Col = -1
 						for a, c := range colourOf {
-							if c == *li.InlineStyle.TTMLColor {
+							if strings.EqualFold(c, *li.InlineStyle.TTMLColor) {
 								r.Col = a
 							}
 						}
